@@ -45,6 +45,7 @@ pub fn generate(stream: &str, n: usize, seed: u64, out: &mut dyn Write) {
         "nal" => gen_nal(&mut r, n, out),
         "stream" => gen_stream(&mut r, n, out),
         "seipayload" => gen_seipayload(&mut r, n, out),
+        "enums" => gen_enums(n, out),
         _ => { eprintln!("unknown stream {}", stream); std::process::exit(2); }
     }
 }
@@ -631,4 +632,13 @@ fn gen_seipayload(r: &mut Rng, n: usize, out: &mut dyn Write) {
         if r.below(10) == 0 { t.clear(); }
         writeln!(out, "t35 {}", hex(&t)).unwrap(); count += 1;
     }
+}
+
+/// exhaustive over the finite domains of C20: all header bytes, unit type ids, profile_idc, constraint flag bytes,
+/// (flags, level_idc) pairs (all 2^16 when n >= 65536, else flags in {0, 16, 255, 0xEF} x all levels), id boundary values
+fn gen_enums(n: usize, out: &mut dyn Write) {
+    for b in 0..=255u32 { writeln!(out, "hdr {}", b).unwrap(); writeln!(out, "unittype {}", b).unwrap(); writeln!(out, "profile {}", b).unwrap(); writeln!(out, "flags {}", b).unwrap(); }
+    let fl: Vec<u32> = if n >= 65536 { (0..=255).collect() } else { vec![0, 16, 239, 255, 0x10 | 0x80, 8] };
+    for f in fl { for l in 0..=255u32 { writeln!(out, "level {} {}", f, l).unwrap(); } }
+    for v in [0u32, 1, 30, 31, 32, 33, 254, 255, 256, 257, 65535, 65536, u32::MAX - 1, u32::MAX] { writeln!(out, "spsid {}", v).unwrap(); writeln!(out, "ppsid {}", v).unwrap(); }
 }
